@@ -326,6 +326,9 @@ func c10ClientPaths(c *core.Ctx) {
 		rs := runClientOps(cf, []cop{{kind: "C", dialOK: true, wfault: -1}, o})
 		c.Eval()
 		c.Hist("client read path: ack bytes -> " + rs[1].ret)
+		if rs[1].ret == "hang" {
+			c.Violation("hang", "c10-hang:Send", "Client.Send did not return while reading the peer's response", map[string]interface{}{"resp": hx(o.resp)})
+		}
 		if rs[1].ret == "panic" {
 			c.Violation("panic", "c10-panic:Send", "Client.Send panicked while reading the peer's response", map[string]interface{}{"resp": hx(o.resp)})
 		}
